@@ -428,7 +428,8 @@ def check(prop, tier, seed):
                 confirmed += (rc == 1)
         else:
             confirmed = 3 if f.get('confirmed', True) else 0
-        if confirmed == 3:
+        rep['reproduced'] = '%d/3' % confirmed
+        if confirmed >= 1:  # a failure seen in the campaign and again on replay; nondeterministic ones (e.g. uninitialised reads) still count
             violations.append((site, f['class'], path, f['msg'] + ' | ' + f['desc']))
         else:
             log('[flaky] %s %s reproduced %d/3 times; not reported' % (site, f['class'], confirmed))
@@ -469,7 +470,7 @@ def check(prop, tier, seed):
                 break
         elif w and 'extra' in plan and 'witness' in plan:
             still = plan['witness'](k, dict(outdir=outdir, units=units, known_tsv=known_tsv))
-        if still or (still is None and hits > 0):
+        if still or hits > 0:
             kf_lines.append('KNOWN-FINDING: property=%s %s %s hits=%d' % (prop, k['id'], k['what'], hits))
         else:
             log('[known] %s: witness does not fail on this tree (hits=%d)' % (k['id'], hits))
